@@ -65,11 +65,11 @@ def main():
     p = ROOT / "DESIGN.md"
     t = p.read_text()
     for name, fn in (("status", status), ("seeds", seeds), ("findings", findings)):
-        pat = re.compile(rf"(<!-- BEGIN:{name} -->\n).*?(\n<!-- END:{name} -->)", re.S)
+        pat = re.compile(rf"(<!-- BEGIN:{name} -->\n).*?(<!-- END:{name} -->)", re.S)
         if not pat.search(t):
             print("marker missing:", name)
             continue
-        t = pat.sub(lambda m: m.group(1) + fn() + m.group(2), t)
+        t = pat.sub(lambda m: m.group(1) + fn() + "\n" + m.group(2), t)
     p.write_text(t)
     print("DESIGN.md tables regenerated")
 
